@@ -133,13 +133,72 @@ pub open spec fn tx_wf(t: RawTx) -> bool {
     &&& forall|k: int| 0 <= k < t.inputs@.len() ==> input_wf(#[trigger] t.inputs@[k])
     &&& forall|k: int| 0 <= k < t.outputs@.len() ==> output_wf(#[trigger] t.outputs@[k])
 }
+// ---- the witness section (skipped by the parser, but skipped *exactly*): one stack per input, each a count and
+//      that many length-prefixed items
+pub struct WItem { pub len: VarUint, pub data: Seq<u8> }
+pub struct WStack { pub count: VarUint, pub items: Seq<WItem> }
+pub open spec fn witem_wire(i: WItem) -> Seq<u8> { i.len.buf@ + i.data }
+pub open spec fn witems_wire(s: Seq<WItem>, n: int) -> Seq<u8>
+    decreases n
+{ if n <= 0 { Seq::empty() } else { witems_wire(s, n - 1) + witem_wire(s[n - 1]) } }
+pub open spec fn wstack_wire(st: WStack) -> Seq<u8> { st.count.buf@ + witems_wire(st.items, st.items.len() as int) }
+pub open spec fn wstacks_wire(s: Seq<WStack>, n: int) -> Seq<u8>
+    decreases n
+{ if n <= 0 { Seq::empty() } else { wstacks_wire(s, n - 1) + wstack_wire(s[n - 1]) } }
+pub open spec fn witem_wf(i: WItem) -> bool { varuint_wf(i.len) && i.data.len() == (i.len.value as u32) as int }
+pub open spec fn wstack_wf(st: WStack) -> bool {
+    varuint_wf(st.count) && st.items.len() == st.count.value && forall|k: int| 0 <= k < st.items.len() ==> witem_wf(#[trigger] st.items[k])
+}
+/// the skipped bytes are exactly `n_in` well-formed witness stacks if the segwit flag is set, and nothing otherwise
+pub open spec fn witness_ok(wit: Seq<u8>, n_in: int, flagged: bool) -> bool {
+    if flagged { exists|ws: Seq<WStack>| #[trigger] wstacks_wire(ws, n_in) == wit && ws.len() == n_in && forall|k: int| 0 <= k < ws.len() ==> wstack_wf(#[trigger] ws[k]) }
+    else { wit.len() == 0 }
+}
+pub proof fn lemma_witems_prefix(a: Seq<WItem>, b: Seq<WItem>, n: int)
+    requires 0 <= n <= b.len(), n <= a.len(), forall|i: int| 0 <= i < n ==> a[i] == b[i]
+    ensures witems_wire(a, n) == witems_wire(b, n)
+    decreases n
+{ if n > 0 { lemma_witems_prefix(a, b, n - 1); } }
+pub proof fn lemma_wstacks_prefix(a: Seq<WStack>, b: Seq<WStack>, n: int)
+    requires 0 <= n <= b.len(), n <= a.len(), forall|i: int| 0 <= i < n ==> a[i] == b[i]
+    ensures wstacks_wire(a, n) == wstacks_wire(b, n)
+    decreases n
+{ if n > 0 { lemma_wstacks_prefix(a, b, n - 1); } }
+/// opening a new (still empty) stack appends its count bytes
+pub proof fn lemma_wstacks_open(ws: Seq<WStack>, c: VarUint)
+    ensures wstacks_wire(ws.push(WStack { count: c, items: Seq::empty() }), ws.len() as int + 1) =~= wstacks_wire(ws, ws.len() as int) + c.buf@
+{
+    let n = ws.push(WStack { count: c, items: Seq::empty() });
+    lemma_wstacks_prefix(n, ws, ws.len() as int);
+    assert(witems_wire(Seq::<WItem>::empty(), 0) =~= Seq::<u8>::empty());
+}
+/// adding an item to the last stack appends the item's bytes
+pub proof fn lemma_wstacks_add_item(ws: Seq<WStack>, it: WItem)
+    requires ws.len() > 0
+    ensures ({
+        let last = ws[ws.len() - 1];
+        let n = ws.update(ws.len() - 1, WStack { count: last.count, items: last.items.push(it) });
+        wstacks_wire(n, n.len() as int) =~= wstacks_wire(ws, ws.len() as int) + witem_wire(it)
+    })
+{
+    let k = ws.len() - 1;
+    let last = ws[k];
+    let ni = last.items.push(it);
+    let n = ws.update(k, WStack { count: last.count, items: ni });
+    lemma_wstacks_prefix(n, ws, k);
+    lemma_witems_prefix(ni, last.items, last.items.len() as int);
+    assert(witems_wire(ni, ni.len() as int) =~= witems_wire(last.items, last.items.len() as int) + witem_wire(it));
+    assert(wstack_wire(n[k]) =~= wstack_wire(last) + witem_wire(it));
+}
+
 /// what read_tx consumed: version, optional segwit marker (a zero count + the flag byte), the
 /// witness-free body, the witness section (present only if flag bit 0 is set), locktime
 pub open spec fn tx_consumed(before: Seq<u8>, after: Seq<u8>, t: RawTx, marker: Seq<u8>, wit: Seq<u8>) -> bool {
     &&& before =~= le32(t.version) + marker + t.in_count.buf@ + ins_wire(t.inputs@, t.inputs@.len() as int)
             + t.out_count.buf@ + outs_wire(t.outputs@, t.outputs@.len() as int) + wit + le32(t.locktime) + after
     &&& (marker.len() == 0 || marker.len() >= 2)
-    &&& (wit.len() > 0 ==> marker.len() >= 2 && marker[marker.len() - 1] & 1 == 1)
+    //# C01:witness_section_skipped_exactly  (one stack per input, present iff flag bit 0 is set)
+    &&& witness_ok(wit, t.in_count.value as int, marker.len() >= 2 && marker[marker.len() - 1] & 1 == 1)
 }
 
 pub proof fn lemma_ins_prefix(a: Seq<TxInput>, b: Seq<TxInput>, n: int)
@@ -375,27 +434,61 @@ pub trait BlockchainRead: Read {
         assert(marker.len() == 0 ==> flags == 0);
         assert(0u8 & 1 == 0) by(bit_vector);
         assert(is_suffix(o_w, o_w)) by { assert(consumed_of(o_w, o_w) =~= Seq::<u8>::empty()); }
+        let ghost mut ws: Seq<WStack> = Seq::empty();
+        assert(consumed_of(o_w, o_w) =~= wstacks_wire(ws, 0));
 //@loop 1 label=it1
                 invariant
-                    is_suffix(self.rem(), o_w),
+                    ws.len() == it1.index@,
+                    is_suffix(self.rem(), o_w), consumed_of(o_w, self.rem()) == wstacks_wire(ws, ws.len() as int),
+                    forall|k: int| 0 <= k < ws.len() ==> wstack_wf(#[trigger] ws[k]),
+                    it1.snapshot.start == 0, it1.snapshot.end == in_count.value, it1.seq().len() == in_count.value,
 //@loop 2 label=it2
                     invariant
-                        is_suffix(self.rem(), o_w),
+                        ws.len() == ws0.len() + 1, forall|k: int| 0 <= k < ws0.len() ==> ws[k] == ws0[k],
+                        forall|k: int| 0 <= k < ws0.len() ==> wstack_wf(#[trigger] ws0[k]),
+                        ws[ws.len() - 1].count == item_count, varuint_wf(item_count),
+                        ws[ws.len() - 1].items.len() == it2.index@,
+                        forall|k: int| 0 <= k < ws[ws.len() - 1].items.len() ==> witem_wf(#[trigger] ws[ws.len() - 1].items[k]),
+                        is_suffix(self.rem(), o_w), consumed_of(o_w, self.rem()) == wstacks_wire(ws, ws.len() as int),
+                        it2.snapshot.start == 0, it2.snapshot.end == item_count.value, it2.seq().len() == item_count.value,
 //@before `let item_count = VarUint::read_from(self)?;`
                 let ghost b1 = self.rem();
 //@after `let item_count = VarUint::read_from(self)?;`
-                proof { lemma_suffix_step(o_w, b1, self.rem(), item_count.buf@); }
+                let ghost ws0 = ws;
+                proof {
+                    lemma_suffix_step(o_w, b1, self.rem(), item_count.buf@);
+                    lemma_wstacks_open(ws0, item_count);
+                    ws = ws0.push(WStack { count: item_count, items: Seq::empty() });
+                }
 //@before `let witness_len = VarUint::read_from(self)?;`
                     let ghost b2 = self.rem();
+                    let ghost ws1 = ws;
 //@after `let witness_len = VarUint::read_from(self)?;`
                     proof { lemma_suffix_step(o_w, b2, self.rem(), witness_len.buf@); }
                     let ghost b3 = self.rem();
 //@after `let _ = self.read_u8_vec(witness_len.value as u32)?;`
-                    proof { lemma_suffix_step(o_w, b3, self.rem(), consumed_of(b3, self.rem())); }
+                    proof {
+                        let data = consumed_of(b3, self.rem());
+                        assert(data.len() == (witness_len.value as u32) as int);
+                        lemma_suffix_step(o_w, b3, self.rem(), data);
+                        let it = WItem { len: witness_len, data: data };
+                        lemma_wstacks_add_item(ws1, it);
+                        let last = ws1[ws1.len() - 1];
+                        ws = ws1.update(ws1.len() - 1, WStack { count: last.count, items: last.items.push(it) });
+                        assert(witem_wire(it) =~= witness_len.buf@ + data);
+                        assert(consumed_of(o_w, self.rem()) =~= wstacks_wire(ws1, ws1.len() as int) + witness_len.buf@ + data);
+                    }
 //@before `let locktime = self.read_u32::<LittleEndian>()?;`
         let ghost wit = consumed_of(o_w, self.rem());
         proof {
-            assert(flags & 1 > 0 || wit =~= Seq::<u8>::empty());
+            assert(flags & 1 > 0 ==> flags & 1 == 1) by(bit_vector);
+            if flags & 1 > 0 {
+                assert(ws.len() == in_count.value);
+                assert(wstacks_wire(ws, in_count.value as int) == wit);
+                assert(witness_ok(wit, in_count.value as int, true));
+            } else {
+                assert(wit =~= Seq::<u8>::empty());
+            }
             lemma_acc(o0, acc, cur, wit, self.rem()); acc = acc + wit; cur = self.rem();
         }
 //@after `let locktime = self.read_u32::<LittleEndian>()?;`
@@ -403,11 +496,10 @@ pub trait BlockchainRead: Read {
 //@before `Ok(tx)`
         proof {
             assert(flags & 1 > 0 ==> flags & 1 == 1) by(bit_vector);
+            assert(flags & 1 > 0 || flags & 1 == 0) by(bit_vector);
             assert(tx.inputs@ == inputs@ && tx.outputs@ == outputs@);
-            if wit.len() > 0 {
-                assert(flags & 1 > 0);
-                assert(marker.len() >= 2);
-            }
+            if flags & 1 > 0 { assert(marker.len() >= 2); }
+            assert(witness_ok(wit, tx.in_count.value as int, marker.len() >= 2 && marker[marker.len() - 1] & 1 == 1));
             assert(o0 == acc + self.rem());
             assert(tx_consumed(o0, self.rem(), tx, marker, wit));
         }
